@@ -39,7 +39,8 @@ func runC13(c *Ctx) {
 
 	const r3 = "C13.R3 timeout forwarding versus router timer"
 	ruleTimeout(c, r3)
-	c.R.Floor(r3, 12)
+	ruleTimerStoppedOnFinal(c, r3)
+	c.R.Floor(r3, 18)
 }
 
 // ruleTimeout: forwarding of the call timeout versus the router-side timer.
